@@ -141,6 +141,17 @@ func (m *machine) runPath(s *Solver, fn *ssa.Function, cfg *runConfig, prefix []
 	case <-time.After(20 * time.Second):
 		end = pathEnd{kind: "engine", msg: "interpreter threads did not stop: " + end.kind + " " + end.msg}
 	}
+	if cfg.trace {
+		for _, t := range i.threads {
+			if !t.dead {
+				top := ""
+				if t.top != nil {
+					top = t.top.stack()
+				}
+				fmt.Fprintf(os.Stderr, "THREAD %s blocked=%q\n%s\n", t.name, t.blocked, top)
+			}
+		}
+	}
 	res := &pathResult{
 		prefix: prefix, taken: i.taken, end: end, forks: i.forks, violations: i.violations,
 		covers: i.covers, unknown: i.unknown, cuts: i.cuts, steps: i.steps, nasserts: i.nasserts,
